@@ -348,12 +348,8 @@ def stage_t(chk, tier, bindir, rnd, stats):
         raise core.ToolError(f"QueryTrace failed: {r.error} rc={r.rc}")
     judged = r.printed("JUDGED") if False else None
     bad = None
-    for line in r.out.splitlines():
-        line = line.strip()
-        if line.startswith('<<"BAD", "') and line.endswith('">>'):
-            bad = json.loads(line[len('<<"BAD", "'):-3].replace('\\"', '"'))
-        if line.startswith('<<"JUDGED", '):
-            judged = int(line[len('<<"JUDGED", '):-2])
+    bad = r.printed_last("BAD")
+    judged = r.printed_int("JUDGED")
     if bad is None or judged is None:
         core.log(r.out[-2000:])
         raise core.ToolError("QueryTrace produced no verdict")
